@@ -113,7 +113,7 @@ func init() {
 	core.Register(&core.Prop{
 		ID:    "C19",
 		Level: "exploration",
-		Rule: "API histories over a family of interpreters sharing one symbol table: operations MakeSymbol(name) (name pool: a plain name and names shaped like generated symbols with counters just ahead of the members' next number: __gensym<n>, g<n>, __anon<n>), GenSymbol(prefix) with prefixes __gensym / g / __anon, Duplicate() and Clone(), each on any of up to three members — all sequences of length 4 (quick: 30^4 = 810000) / 5 (thorough: 24.3 million) exhaustively, sharded by their first two operations; plus script-level histories mixing str2sym, gensym, symnum, read, macro definitions and anonymous functions, checked through (== a b), (symnum x) and hash lookups keyed by symbols. " +
+		Rule: "API histories over a family of interpreters sharing one symbol table: operations MakeSymbol(name) (name pool: a plain name and names shaped like generated symbols with counters just ahead of the members' next number: __gensym<n>, g<n>, __anon<n>), GenSymbol(prefix) with prefixes __gensym / g / __anon, Duplicate() and Clone(), each on any of up to three members — all sequences of length 4 (quick: 30^4 = 810000) / 5 (thorough: 24.3 million) exhaustively, sharded by their first two operations; plus script-level histories mixing str2sym, gensym, symnum, read, macro definitions and anonymous functions, names that differ only in letter case, checked through (== a b), (!= a b), equality of arrays and lists holding the symbols, (symnum x) and hash lookups keyed by symbols. " +
 			"Monitor: after every operation the returned symbol's (name, number) is entered into a global name<->number bijection; a generated symbol must be absent before the call. non-trivial = distinct sequence that contains a GenSymbol/gensym after a look-alike name was interned, or a Duplicate/Clone followed by interning on two different members",
 		Assumptions: []string{"sequences that address a member which does not exist yet are cut at that point"},
 		NCases: func(c *core.Ctx) int {
@@ -258,7 +258,14 @@ func c19Script(c *core.Ctx, i int) *core.Result {
 	look := false
 	names := map[string]bool{}
 	for k := 0; k < steps && res.Verdict != core.Violated; k++ {
-		switch r.N(7) {
+		switch r.N(9) {
+		case 7, 8: // names that differ only in the case of their letters, or by a trailing digit / colon-free punctuation
+			nm := []string{"gamma", "Gamma", "GAMMA", "gAmma", "gamma1", "gamma_", "Gamma1", "straße", "STRASSE", "é", "É"}[r.N(11)]
+			if r.Bool() {
+				observe(fmt.Sprintf("(quote %s)", nm), false)
+			} else {
+				observe(fmt.Sprintf("(str2sym %q)", nm), false)
+			}
 		case 0, 1:
 			pre := c19Prefixes[r.N(2)]
 			nm := pre + strconv.FormatInt(ctr+int64(r.N(40)), 10)
@@ -295,12 +302,12 @@ func c19Script(c *core.Ctx, i int) *core.Result {
 		if n, ok := o.Val.(*zygo.SexpInt); ok && o.Err == nil {
 			for a := 0; a < int(n.Val); a++ {
 				for b := a + 1; b < int(n.Val); b++ {
-					o := s.Eval(fmt.Sprintf("(list (== (aget syms %d) (aget syms %d)) (== (str (aget syms %d)) (str (aget syms %d))))\n", a, b, a, b), 0)
+					o := s.Eval(fmt.Sprintf("(list (== (aget syms %d) (aget syms %d)) (== (str (aget syms %d)) (str (aget syms %d))) (not (!= (aget syms %d) (aget syms %d))) (== [(aget syms %d)] [(aget syms %d)]) (== (list 1 (aget syms %d)) (list 1 (aget syms %d))))\n", a, b, a, b, a, b, a, b, a, b), 0)
 					res.Evals++
 					if o.Err != nil || o.Panic != "" {
 						continue
 					}
-					if got := sut.Show(o.Val); got != "(true true)" && got != "(false false)" {
+					if got := sut.Show(o.Val); got != "(true true true true true)" && got != "(false false false false false)" {
 						res.Violate("script:equality-disagrees-with-names", fmt.Sprintf("symbols %d and %d: (== a b) and equality of their names give %s", a, b, got), strings.Join(hist, " "))
 					}
 				}
